@@ -118,6 +118,18 @@ def handleTxCreate (_D : Dev) : List String → Option String
       | some l => "ok " ++ ",".intercalate (l.map fun o => s!"{o.1}:{if o.2 then "c" else "r"}")
       | none => "refused"
     pure (two s s)
+  | ["txc_wbump", oldFee, vsize, extra, ins, outs, utxos] => do
+    let os ← (outs.splitOn ",").mapM fun x => match x.splitOn ":" with
+      | [v, c] => v.toNat?.map fun v => ((v, c == "c") : BOut)
+      | _ => none
+    let ins ← natsOf ins ","
+    let us ← parseUtxos utxos
+    let s := match walletBump (← oldFee.toNat?) (← vsize.toNat?) (← extra.toNat?) ins os us with
+      | .ok (i, l) => "ok ins=" ++ ",".intercalate (i.map toString) ++ " outs=" ++ ",".intercalate (l.map fun o => s!"{o.1}:{if o.2 then "c" else "r"}")
+      | .error .notEnough => "err not-enough"
+      | .error .tooSmall => "err too-small"
+      | .error .zeroFee => "err zero-fee"
+    pure (two s s)
   | _ => none
 
 end Btc.Driver
